@@ -6,6 +6,7 @@ import (
 	"encoding/json"
 	"fmt"
 	"os"
+	"strings"
 
 	"github.com/xinchentechnote/fin-proto-go/zzverif/vrt"
 
@@ -26,7 +27,7 @@ func planFor(id string, thorough bool) *plan {
 	case "C19":
 		p := &plan{scenarios: c19Scenarios(thorough), outcome: regOutcome, bounds: []int{-1, 2}, caps: []int64{30000, 300000}}
 		if thorough {
-			p.caps = []int64{200000, 2000000}
+			p.bounds, p.caps = []int{-1, 3, 2}, []int64{200000, 3000000, 2000000}
 		}
 		return p
 	case "C20":
@@ -53,6 +54,9 @@ func runShard(id string, thorough bool, shard, n int) *shardResult {
 		res.Scenarios++
 		var st *exploreStats
 		for bi, b := range p.bounds {
+			if b < 0 && strings.HasPrefix(sc.Name, "3x2 ") {
+				continue // 3 threads x 2 ops: preemption bound 2 directly (the unbounded space is ~10^5..10^6 schedules each)
+			}
 			st = explore(sc, b, p.caps[bi], p.outcome)
 			res.Execs += st.Execs
 			res.Steps += st.Steps
@@ -68,18 +72,26 @@ func runShard(id string, thorough bool, shard, n int) *shardResult {
 		}
 		if st.Finding != nil {
 			// replay the schedule twice: the same schedule must fail every time
-			_, f1 := runOnce(sc, st.FindingSch, nil)
-			_, f2 := runOnce(sc, st.FindingSch, nil)
-			if f1 == nil || f2 == nil || f1.Kind != st.Finding.Kind || f2.Kind != st.Finding.Kind {
-				fmt.Fprintf(os.Stderr, "harness error: violation in %q did not reproduce under replay (%v / %v / %v)\n", sc.Name, st.Finding, f1, f2)
-				os.Exit(2)
+			repro := 0
+			for k := 0; k < 5; k++ {
+				if _, f := runOnce(sc, st.FindingSch, nil); f != nil && f.Kind == st.Finding.Kind {
+					repro++
+				}
 			}
+			note := ""
+			if repro < 5 {
+				note = fmt.Sprintf(" [reproduced in %d of 5 replays: the code under test is not deterministic under a fixed schedule (e.g. it iterates over a map; %d explored executions diverged from their recorded prefix); the observed execution stands as the counterexample]", repro, st.Diverged)
+			}
+			st.Finding.Detail += note
 			res.Violations = append(res.Violations, &ev.Violation{Property: id, Kind: st.Finding.Kind, Subject: subjectOf(id, sc, st.Finding),
 				Detail: fmt.Sprintf("scenario [%s] schedule %v (preemption bound %s): %s", sc.Name, st.FindingSch, boundStr(st.Bound), st.Finding.Detail),
 				Replay: map[string]any{"op": "schedule", "check": id, "scenario": sc.Name, "index": idx, "schedule": st.FindingSch, "thorough": thorough}})
 			continue
 		}
-		if st.Capped {
+		if st.Diverged > 0 {
+			res.Extra["executions_diverged_from_recorded_prefix"] += st.Diverged
+			res.Capped++ // not exhaustive for this scenario
+		} else if st.Capped {
 			res.Capped++
 		} else if st.Bound < 0 {
 			res.Unbounded++
@@ -98,7 +110,11 @@ func runShard(id string, thorough bool, shard, n int) *shardResult {
 			res.MultiOutcome++
 		}
 		if len(res.Samples) < 1 && shard < 4 {
-			res.Samples = append(res.Samples, map[string]any{"scenario": sc.Name, "schedules": st.Execs, "distinct_outcomes": k, "max_points": st.MaxPoints, "bound": boundStr(st.Bound)})
+			smp := map[string]any{"scenario": sc.Name, "schedules": st.Execs, "distinct_outcomes": k, "max_points": st.MaxPoints, "bound": boundStr(st.Bound)}
+			if id == "C19" && lastHist != nil {
+				smp["last_explored_history"] = histString(lastHist)
+			}
+			res.Samples = append(res.Samples, smp)
 		}
 	}
 	return res
